@@ -106,6 +106,37 @@ def oracle(ctx):
             want = 'ok [' + ' '.join(t for v in vals for t in so[v][4:-1].split(' ') if t) + ']'
             if a != want:
                 res.oracle_failures.append(dict(op=op, input=vals, impl_output=core.dec_line(a), oracle_expectation=core.dec_line(want)))
+    # name=value keys (Environment, Label, Annotation, Options) are argument-style too: the words of every assignment — of one word or of
+    # several, with or without quotes — are systemd's words (escapes decoded), each split at its first '='; the last value per name counts
+    kv_cases = []
+    for _ in range(600 if ctx.thorough else 200):
+        n = rnd.choice([1, 1, 1, 2, 3])
+        words = []
+        for _i in range(n):
+            name = rnd.choice(['A', 'B', 'GREETING', 'k.e-y'])
+            val = rnd.choice(['v', 'hello\\x20world', 'tab\\there', 'back\\\\slash', 'oct\\101', 'u\\u00e9', 'sp\\sace', 'dash\\x2dx', 'plain', '', 'eq=in=value'])
+            w = name + '=' + val
+            words.append(rnd.choice([w, w, '"' + w + '"', "'" + w + "'"]) if ' ' not in w else '"' + w + '"')
+        kv_cases.append([' '.join(words)] + ([rnd.choice(['A=later', 'B=\\x41'])] if rnd.random() < 0.3 else []))
+    kops = ['unit\tload\t' + hx('[S]\n' + ''.join(f'K={v}\n' for v in vals)) + '\tlookup_all_key_val\t' + hx('S') + '\t' + hx('K') for vals in kv_cases]
+    kio = ctx.impl(kops)
+    kflat = sorted({v for vals in kv_cases for v in vals})
+    kso = dict(zip(kflat, ctx.model(['spec_split_args\t' + hx(v) for v in kflat])))
+    for vals, op, a in zip(kv_cases, kops, kio):
+        res.oracle_evals += 1
+        if a.startswith('err') or not all(kso[v].startswith('ok [') for v in vals):
+            continue
+        want = {}
+        for v in vals:
+            for t in kso[v][4:-1].split(' '):
+                if t and '=' in unhx(t):
+                    k_, v_ = unhx(t).split('=', 1)
+                    want.pop(k_, None)
+                    want[k_] = v_
+        toks = [unhx(t) for t in a[4:-1].split(' ') if t] if a.startswith('ok [') else None
+        got = dict(zip(toks[0::2], toks[1::2])) if toks is not None and len(toks) % 2 == 0 else None
+        if got != want:
+            res.oracle_failures.append(dict(op=op, input=vals, impl_output=core.dec_line(a), oracle_expectation=f'name=value pairs {want} (systemd words of each assignment, escapes decoded, split at the first "=", last value per name)'))
     # through the real converters: every key the documented tables read as a *plain list* (lookup_all_strv) keeps backslash
     # sequences literally and splits at white space only; every *argument-style* key (lookup_all_args) decodes them. The
     # kind of each key comes from the frozen specification (spec/keys.json), the words from the specification splitters.
